@@ -34,7 +34,8 @@ ContentCs == {"digits", "two_words", "text"}
 Default == [version |-> "none", error |-> "none", mode |-> "none", micro |-> "none", pattern |-> "none", boost |-> TRUE, seq |-> FALSE,
             encoding |-> "none", count |-> "none", content |-> "text"]
 Fields == {"version", "error", "mode", "micro", "pattern", "boost", "seq", "encoding", "count"}
-NonDefault(f) == {k \in Fields : f[k] # Default[k]}
+\* --symbol-count only makes sense together with --seq (and a sequence needs it or a version): the pair counts as one flag
+NonDefault(f) == {k \in Fields : f[k] # Default[k]} \ (IF f.seq THEN {"count"} ELSE {})
 FlagSets == {f \in [version : VersionCs, error : ErrorCs, mode : ModeCs, micro : MicroCs, pattern : PatternCs, boost : BOOLEAN, seq : BOOLEAN,
                     encoding : EncCs, count : CountCs, content : ContentCs] : Cardinality(NonDefault(f)) <= MaxFlags}
 
